@@ -332,6 +332,13 @@ func (r *Run) Finish() {
 			keys = append(keys, k)
 		}
 		sort.Strings(keys)
+		fl := map[string][2]int64{}
+		for _, k := range keys {
+			fl[k] = [2]int64{r.floors[k], r.counters[k]}
+		}
+		if len(fl) > 0 {
+			r.extra["coverage_floors_min_and_observed"] = fl
+		}
 		for _, k := range keys {
 			if r.counters[k] < r.floors[k] {
 				r.incon = append(r.incon, fmt.Sprintf("coverage floor not reached: %s=%d < %d", k, r.counters[k], r.floors[k]))
